@@ -172,6 +172,9 @@ class Check:
         if self.replay_only is None:
             # evidence describes runs against /repo; a run against a scratch tree (RICH_SRC) must not overwrite it
             target = os.path.join(EVID, self.pid + ".json")
+            if self.pid.startswith("X"):        # spec growth beyond the listed properties: not claimed in MANIFEST.json
+                os.makedirs(EVID + "_extra", exist_ok=True)
+                target = os.path.join(EVID + "_extra", self.pid + ".json")
             if os.path.realpath(rich_src()) != "/repo":
                 os.makedirs(os.path.join(VERIF, ".work"), exist_ok=True)
                 target = os.path.join(VERIF, ".work", "evidence-scratch-%s-%d.json" % (self.pid, os.getpid()))
